@@ -178,6 +178,9 @@ def sites(model, attr: str):
     return grow, shrink
 
 
+from .common_node import selects_own_entries
+
+
 def run(ctx: Ctx):
     model = ctx.model
     found = discover(model)
@@ -357,6 +360,9 @@ def run(ctx: Ctx):
     from .common_node import connect_failure_closes, route_lists_not_aliased
     connect_failure_closes(ctx, "C19-G4e")
     route_lists_not_aliased(ctx, "C19-G6")
+    # writer, readers and purge of the flat transaction tables agree on the key
+    from .common_node import transaction_table_keys
+    transaction_table_keys(ctx, "C19-G7")
     ctx.include(_c06_run, {"C06-R3"}, "C19-G4d",
                 "a connection refused by receive_cer is left in a state that the I/O loop or the "
                 "timers tear down (CLOSING, or CONNECTED until the CER time-out): stored in any "
@@ -474,7 +480,7 @@ def _allowed_extra(key, fn_name, extra) -> bool:
             ok.append(True)
         elif key in (("Node", "_origin_waiting_answer"), ("Node", "_app_waiting_answer")) \
                 and fn_name == "remove_peer_connection" \
-                and ".startswith(" in s and "ident" in s and t:
+                and selects_own_entries((s, op, v, t)):
             ok.append(True)          # selects the removed connection's own entries (key prefix)
         else:
             ok.append(False)
